@@ -3,11 +3,14 @@
 /verif/seeded/<prop>-<k>/ (patch.diff, demonstration, meta.json augmented with
 what was confirmed and which check caught it) and print a summary table."""
 import json, os, shutil, sys, glob
-src = "/var/tmp/seed_out"
+# usage: collect_seeded.py [src_dir [offset]]   (round 2: /var/tmp/seed_out2 3  =>  C01/1 -> seeded/C01-4)
+src = sys.argv[1] if len(sys.argv) > 1 else "/var/tmp/seed_out"
+offset = int(sys.argv[2]) if len(sys.argv) > 2 else 0
 dst = "/verif/seeded"
 rows = []
 for d in sorted(glob.glob(src + "/*/*/")):
     prop, k = d.rstrip("/").split("/")[-2:]
+    k = str(int(k) + offset)
     if not os.path.exists(d + "patch.diff") or not os.path.exists(d + "meta.json"):
         continue
     res = None
